@@ -71,18 +71,19 @@ func (t *transformer) send(w io.Writer) error {
 		}
 	}
 	// write binary
-	size, err := t.f.Seek(0, io.SeekEnd)
+	// read through a section reader so that this goroutine never moves the
+	// shared file offset: GetReader may be called again (failover) and Apply
+	// reads the same file while an abandoned producer is still running
+	st, err := t.f.Stat()
 	if err != nil {
 		return err
 	}
+	size := st.Size()
 	hdr := &tar.Header{Name: dmgName, Mode: 0644, Size: size}
 	if err := tw.WriteHeader(hdr); err != nil {
 		return err
 	}
-	if _, err := t.f.Seek(0, 0); err != nil {
-		return err
-	}
-	if _, err := io.Copy(tw, t.f); err != nil {
+	if _, err := io.Copy(tw, io.NewSectionReader(t.f, 0, size)); err != nil {
 		return err
 	}
 	return tw.Close()
